@@ -1,7 +1,7 @@
 (* boundary/TlsPump: executable model of anyio.streams.tls.TLSStream on AnyIO's side of the OpenSSL boundary.
 
    Modelled (transcribed from src/anyio/streams/tls.py of the pinned tree):
-     _call_sslobject_method  :182-226   -> on_ev / iter / pump
+     _call_sslobject_method  :182-233   -> on_ev / iter / pump   (tree with fix c5df3e8)
      unwrap                  :228-238   -> do_unwrap
      aclose                  :240-248   -> step OAclose
      receive                 :250-258   -> step (OReceive n)
@@ -145,6 +145,25 @@ Definition do_recv (s : pst) : pst * next :=
       | RxData d =>
           (* MemoryBIO.write() after write_eof() raises ssl.SSLError, outside of the try block *)
           if bin_eof s3 then (set_late s3, Done RSslOther) else (feed s3 d, Again)
+      | RxEof =>
+          (* except EndOfStream: `if not self.standard_compatible: raise` comes BEFORE write_eof() (fix c5df3e8):
+             a ragged end is reported as it is and the SSL object never sees it *)
+          if std s3 then (set_bin_eof s3, Again) else (s3, Done REndOfStream)
+      | RxOSErr => (both_eof s3, Done RBroken)
+      | RxBroken => (s3, Done RBroken)
+      | RxClosed => (s3, Done RClosed)
+      end
+  end.
+
+(* the loop as it was before c5df3e8 (transport EOF always written to the incoming BIO); used only by the
+   ..._refuted_pinned witnesses *)
+Definition do_recv_pinned (s : pst) : pst * next :=
+  match pop_rx s with
+  | None => (s, Done RStuck)
+  | Some (r, s2) =>
+      let s3 := log_call s2 (CRecv (length (bout s2)) r) in
+      match r with
+      | RxData d => if bin_eof s3 then (set_late s3, Done RSslOther) else (feed s3 d, Again)
       | RxEof => (set_bin_eof s3, Again)
       | RxOSErr => (both_eof s3, Done RBroken)
       | RxBroken => (s3, Done RBroken)
@@ -182,6 +201,19 @@ Inductive op :=
 | OSend (item : list byte)
 | OUnwrap
 | OAclose.
+
+Definition on_ev_pinned (s1 : pst) (e : sslev) : pst * next :=
+  match ek e with
+  | KWantRead =>
+      let '(s2, t) := flush s1 in
+      match t with
+      | TxOk => do_recv_pinned s2
+      | TxOSErr => (both_eof s2, Done RBroken)
+      | TxBroken => (s2, Done RBroken)
+      | TxClosed => (s2, Done RClosed)
+      end
+  | _ => on_ev s1 e
+  end.
 
 Section Pump.
   Variable O : Type.
@@ -247,6 +279,45 @@ Section Pump.
 
   Definition run (fuel : nat) (w : O * pst) (ops : list op) : (O * pst) * list res :=
     run_ops (step fuel) w ops.
+
+  (* pre-c5df3e8 variants (receive and send only) *)
+  Fixpoint pump_pinned (fuel : nat) (o : O) (f : func) (s : pst) : O * pst * res :=
+    match fuel with
+    | 0 => (o, s, RStuck)
+    | S k =>
+        match ocall o f (bin s) (bin_eof s) with
+        | None => (o, s, RStuck)
+        | Some (o1, e) =>
+            match on_ev_pinned (apply_ev s f e) e with
+            | (s1, Done r) => (o1, s1, r)
+            | (s1, Again) => pump_pinned k o1 f s1
+            end
+        end
+    end.
+
+  Definition step_pinned (fuel : nat) (w : O * pst) (a : op) : (O * pst) * res :=
+    let '(o, s) := w in
+    match a with
+    | OHandshake =>
+        match pump_pinned fuel o FHandshake s with
+        | (o1, s1, RVal _) => ((o1, s1), RVal [])
+        | (o1, s1, r) => ((o1, s1), r)
+        end
+    | OReceive (S n) =>
+        match pump_pinned fuel o (FRead (S n)) s with
+        | (o1, s1, RVal []) => ((o1, s1), REndOfStream)
+        | (o1, s1, r) => ((o1, s1), r)
+        end
+    | OSend item =>
+        match pump_pinned fuel o (FWrite item) s with
+        | (o1, s1, RVal _) => ((o1, s1), RVal [])
+        | (o1, s1, r) => ((o1, s1), r)
+        end
+    | _ => (w, RValueError)
+    end.
+
+  Definition run_pinned (fuel : nat) (w : O * pst) (ops : list op) : (O * pst) * list res :=
+    run_ops (step_pinned fuel) w ops.
 End Pump.
 
 (* ---------- derived observables ---------- *)
@@ -381,6 +452,8 @@ Definition toy_call (o : tobj) (f : func) (b : list byte) (beof : bool) : option
 
 Definition tstep := step tobj toy_call.
 Definition trun := run tobj toy_call.
+Definition trun_pinned := run_pinned tobj toy_call.
+Definition srun_pinned := run_pinned (list sslev) scall.
 
 (* what one endpoint puts on the wire when it handshakes, sends `items` and (optionally) closes *)
 Definition wire (m : nat) (items : list (list byte)) (closed : bool) : list byte :=
@@ -400,6 +473,14 @@ Fixpoint accepted (ops : list op) (rs : list res) : list (list byte) :=
   | OSend item :: ops', RVal _ :: rs' => item :: accepted ops' rs'
   | _ :: ops', _ :: rs' => accepted ops' rs'
   | _, _ => []
+  end.
+
+(* every item handed to send() *)
+Fixpoint sends_of (ops : list op) : list (list byte) :=
+  match ops with
+  | [] => []
+  | OSend item :: r => item :: sends_of r
+  | _ :: r => sends_of r
   end.
 
 (* ---------- codec (shared with harness/c17.py) ----------
